@@ -258,6 +258,7 @@ func (t *Object) Resolve(field *Field, args map[string]interface{}) (result inte
 }
 
 func (t *Object) metaCheck(rt reflect.Type) (reflect.Type, error) {
+	verifYield("obj.mu:" + t.N)
 	t.mu.Lock()
 	defer t.mu.Unlock()
 	if t.meta == nil {
